@@ -4,8 +4,10 @@ package main
 // Unmarshal(arbitrary bytes) = error | havoc of the destination by its Go type.
 
 import (
+	"crypto/sha256"
 	"fmt"
 	"go/types"
+	"strings"
 )
 
 const cborPkg = "github.com/fxamacker/cbor/v2."
@@ -16,6 +18,7 @@ type cborToken struct {
 	b    []*Term
 	val  Value
 	typ  types.Type
+	conc bool
 }
 
 func (in *Interp) deepCopy(v Value, memo map[*Cell]*Cell) Value {
@@ -82,13 +85,54 @@ func (in *Interp) copyCell(c *Cell, memo map[*Cell]*Cell) *Cell {
 	return nc
 }
 
-func (in *Interp) cborTokens() map[int]*cborToken {
-	m, ok := in.misc["cbor"].(map[int]*cborToken)
+func (in *Interp) cborTokens() map[string]*cborToken {
+	m, ok := in.misc["cbor"].(map[string]*cborToken)
 	if !ok {
-		m = map[int]*cborToken{}
+		m = map[string]*cborToken{}
 		in.misc["cbor"] = m
 	}
 	return m
+}
+
+func tokKey(b []*Term) string {
+	var sb strings.Builder
+	for _, t := range b {
+		fmt.Fprintf(&sb, "%d,", t.id)
+	}
+	return sb.String()
+}
+
+// snapConcrete serialises a snapshot if all its leaves are constants.
+func snapConcrete(s *Snap, sb *strings.Builder) bool {
+	sb.WriteString(s.Kind)
+	sb.WriteByte('{')
+	sb.WriteString(s.Tag)
+	if s.T != nil {
+		if !s.T.IsConst() {
+			return false
+		}
+		sb.WriteString(s.T.C.String())
+	}
+	for _, t := range s.S {
+		if !t.IsConst() {
+			return false
+		}
+		sb.WriteString(t.C.Text(16))
+		sb.WriteByte('.')
+	}
+	for _, k := range s.Keys {
+		if !snapConcrete(k, sb) {
+			return false
+		}
+	}
+	sb.WriteByte('|')
+	for _, k := range s.Sub {
+		if !snapConcrete(k, sb) {
+			return false
+		}
+	}
+	sb.WriteByte('}')
+	return true
 }
 
 func (in *Interp) cborMarshal(v Value) Value {
@@ -98,14 +142,29 @@ func (in *Interp) cborMarshal(v Value) Value {
 		return tup(in.byteSlice([]*Term{BVConst64(0xf6, 8)}), nilErr)
 	}
 	toks := in.cborTokens()
-	id := len(toks) + 1
+	seq, _ := in.misc["cborSeq"].(int)
+	in.misc["cborSeq"] = seq + 1
+	id := seq + 1
 	tk := &cborToken{id: id, typ: iv.T, val: in.deepCopy(iv.V, map[*Cell]*Cell{})}
+	s := in.snapshot(tk.val, 0, map[*Cell]int{})
+	var sb strings.Builder
+	sb.WriteString(iv.T.String())
+	if snapConcrete(s, &sb) {
+		// concrete value: concrete token (a digest of the canonical form), no axioms needed
+		d := sha256.Sum256([]byte(sb.String()))
+		for i := 0; i < cborTokenLen; i++ {
+			tk.b = append(tk.b, BVConst64(uint64(d[i]), 8))
+		}
+		tk.conc = true
+		toks[tokKey(tk.b)] = tk
+		in.stubsSeen["cbor-model:Marshal(token)"] = true
+		return tup(in.byteSlice(tk.b), nilErr)
+	}
 	for i := 0; i < cborTokenLen; i++ {
 		tk.b = append(tk.b, Var(fmt.Sprintf("cbor%d[%d]", id, i), BV(8)))
 	}
 	// injectivity of the encoding: tokens of distinct Marshal calls are distinct byte strings unless the
 	// values are structurally identical snapshots
-	s := in.snapshot(tk.val, 0, map[*Cell]int{})
 	for _, o := range toks {
 		if !types.Identical(o.typ, tk.typ) {
 			in.assumeAxiom(Not(streamEq(o.b, tk.b)))
@@ -115,7 +174,7 @@ func (in *Interp) cborMarshal(v Value) Value {
 		same := in.snapEq(s, so)
 		in.assumeAxiom(Eq(same, streamEq(o.b, tk.b)))
 	}
-	toks[tk.b[0].id] = tk
+	toks[tokKey(tk.b)] = tk
 	in.stubsSeen["cbor-model:Marshal(token)"] = true
 	return tup(in.byteSlice(tk.b), nilErr)
 }
@@ -124,16 +183,7 @@ func (in *Interp) cborLookup(data []*Term) *cborToken {
 	if len(data) != cborTokenLen {
 		return nil
 	}
-	tk := in.cborTokens()[data[0].id]
-	if tk == nil {
-		return nil
-	}
-	for i := range data {
-		if data[i] != tk.b[i] {
-			return nil
-		}
-	}
-	return tk
+	return in.cborTokens()[tokKey(data)]
 }
 
 // assignDecoded stores src (of dynamic type *T or T) into the destination pointer respecting Go/cbor rules:
